@@ -111,8 +111,7 @@ def _validate(module, cfg, trace, label, v, fam, lenient=True):
 
 
 def _validate_groups(trace, w, pid, v, chunk=400):
-    """The batch is validated scenario by scenario (random scenarios in chunks): validate_batch stops after a handful of
-    rejected runs, and one noisy scenario must not hide the others."""
+    """The batch is validated in chunks of whole scenarios."""
     groups, order = {}, []
     cur = None
     for ln in open(trace):
@@ -124,14 +123,12 @@ def _validate_groups(trace, w, pid, v, chunk=400):
             cur = groups[sc]
         if cur is not None:
             cur.append(ln)
-    # micro scenarios have many runs each; random scenarios have few: pool the small ones
+    # scenarios are pooled into files of about `chunk` runs (one JVM start each); validate_batch itself switches to
+    # lenient judging of the remainder after a few strict rejections, so a noisy scenario does not hide the others
     files, pool = [], []
     for sc in order:
         runs = sum(1 for l in groups[sc] if l.startswith('{"a":"reset"'))
-        if runs >= 20:
-            files.append(groups[sc])
-        else:
-            pool.append((runs, groups[sc]))
+        pool.append((runs, groups[sc]))
     acc, n = [], 0
     for runs, lines in pool:
         acc.extend(lines)
